@@ -160,10 +160,12 @@ theorem dangling_hunk_header_has_no_row :
 /-- **`one_file_header_per_section`** (whole runs, `Proofs/Machine/FileHeaders.lean`). For every
 configuration in which the file header is a row of its own (not color-only; file style neither raw
 nor omitted: `FHC`) and every git diff made of ordinary sections — a `diff --git` line, index-like
-lines (`Noise`) and `new file mode` / `deleted file mode` lines, the `--- ` line, the `+++ ` line, then hunk-header lines and hunk lines starting with a
+lines (`Noise`) and `new file mode` / `deleted file mode` lines, the line naming the old file (`--- `,
+`rename from `, `copy from `), the line naming the new file (`+++ `, `rename to `, `copy to `), for a
+renamed or copied file with changes the two names once more (`again`), then hunk-header lines and hunk lines starting with a
 hunk-header line (`Sec.WF`) — the file-header rows of delta's output are, in order, exactly one per
-section (`rowsOf`): the row written at the section's `+++ ` line, whose text is the description of the
-two names those lines carry (`headerRow`, `fileChangeDescription`; see `description_*` above). No
+section (`rowsOf`): the row written at the line that names the section's new file, whose text is the description of the
+two names and the event (change, rename, copy) those lines carry (`headerRow`, `fileChangeDescription`; see `description_*` above). No
 section gets two headers, none is skipped, and no header names another section's file. -/
 theorem one_file_header_per_section {cfg : Cfg} (hc : FHC cfg) (secs : List Sec) (w : ∀ s ∈ secs, s.WF) {m : M}
     (e : run cfg (linesOf secs) = .ok m) :
@@ -196,6 +198,7 @@ example : secA.WF :=
       subst hx; exact Or.inl noise_index
     mi := by decide
     pl := by decide
+    again := by intro n2 a b h; simp [secA] at h
     hunks := by
       intro x hx
       simp only [secA, List.map, List.mem_cons, List.not_mem_nil, or_false] at hx
@@ -226,6 +229,7 @@ example : secB.WF :=
       · exact Or.inl noise_index0
     mi := by decide
     pl := by decide
+    again := by intro n2 a b h; simp [secB] at h
     hunks := by
       intro x hx
       simp only [secB, List.map, List.mem_cons, List.not_mem_nil, or_false] at hx
@@ -236,6 +240,51 @@ example : secB.WF :=
       intro x hx
       simp only [secB, List.map, List.head?] at hx
       cases hx; decide }
+
+/-- a renamed file with changes: `rename from` / `rename to` name the two files, the `--- ` / `+++ ` lines name them again -/
+def secC : Sec :=
+  { d := mkL "diff --git a/old name.rs b/new.rs", noise := [mkL "similarity index 90%"],
+    mi := mkL "rename from old name.rs", pl := mkL "rename to new.rs",
+    again := some ([mkL "index 1111111..2222222 100644"], mkL "--- a/old name.rs\t", mkL "+++ b/new.rs"),
+    hunks := ["@@ -1 +1 @@", "-a", "+b"].map mkL }
+
+theorem noise_similarity : Noise (mkL "similarity index 90%") :=
+  { hunkHeader := by decide, oldMode := by decide, newMode := by decide, binary := by decide, submodule := by decide,
+    commit := rfl, diff := by decide, fileOp := by decide, minus := by decide, plus := by decide }
+
+example : secC.WF :=
+  { d := by decide
+    noise := by
+      intro x hx
+      simp only [secC, List.mem_singleton] at hx
+      subst hx; exact Or.inl noise_similarity
+    mi := by decide
+    pl := by decide
+    again := by
+      intro n2 a b h
+      simp only [secC, Option.some.injEq, Prod.mk.injEq] at h
+      obtain ⟨rfl, rfl, rfl⟩ := h
+      refine ⟨?_, by decide, by decide, by decide, by decide⟩
+      intro x hx
+      simp only [List.mem_singleton] at hx
+      subst hx; exact noise_index
+    hunks := by
+      intro x hx
+      simp only [secC, List.map, List.mem_cons, List.not_mem_nil, or_false] at hx
+      rcases hx with h | h | h <;> subst h
+      · exact Or.inl (by decide)
+      · exact Or.inr ⟨⟨'-', "a".toList, rfl, rfl⟩, rfl, rfl⟩
+      · exact Or.inr ⟨⟨'+', "b".toList, rfl, rfl⟩, rfl, rfl⟩
+    first := by
+      intro x hx
+      simp only [secC, List.map, List.head?] at hx
+      cases hx; decide }
+
+/-- the rename is reported once, at the `rename to` line, with its event and both names -/
+example : rowsOf {} 0 [secC] = [{ kind := .file, text := "renamed: old name.rs ⟶   new.rs".toList, src := 3 }] := by decide
+example : (match run {} (linesOf [secC, secA]) with
+    | .ok m => m.out.filter (fun r => r.kind == .file) == rowsOf {} 0 [secC, secA]
+    | .error _ => false) = true := by decide
 
 /-- what the theorem says for these two sections: one row at each `+++ ` line (input lines 3 and 14),
 the modified file under its name, the deleted one as removed -/
